@@ -356,9 +356,12 @@ func sortedOnAllPaths(fn *ssa.Function, start *ssa.BasicBlock, cell ssa.Value, m
 			}
 		}
 		if ifi, ok := b.Instrs[len(b.Instrs)-1].(*ssa.If); ok {
-			if guardLenGT1(ifi.Cond, m) {
+			switch trivialLenEdge(ifi.Cond, m) {
+			case -1:
 				// false edge: at most one key, trivially sorted
 				return visit(b.Succs[0])
+			case 1:
+				return visit(b.Succs[1])
 			}
 		}
 		for _, s := range b.Succs {
@@ -372,34 +375,56 @@ func sortedOnAllPaths(fn *ssa.Function, start *ssa.BasicBlock, cell ssa.Value, m
 	return ok, bad
 }
 
-// guardLenGT1: cond is len(m) > 1, len(m) >= 2, 1 < len(m), 2 <= len(m) (true => more than one key).
-func guardLenGT1(cond ssa.Value, m ssa.Value) bool {
+// trivialLenEdge: cond compares len(m) with a constant; +1 when the true edge implies at most one
+// key (trivially sorted), -1 when the false edge does, 0 otherwise.
+func trivialLenEdge(cond ssa.Value, m ssa.Value) int {
 	bo, ok := cond.(*ssa.BinOp)
 	if !ok {
-		return false
+		return 0
 	}
 	isLen := func(v ssa.Value) bool {
 		x, ok := lenArg(v)
 		return ok && x == m
 	}
-	cst := func(v ssa.Value) int64 {
-		c, ok := cfgutil.ConstInt(v)
-		if !ok {
-			return -99
+	op, x, y := bo.Op, bo.X, bo.Y
+	if !isLen(x) && isLen(y) {
+		x, y = y, x
+		op = mirrorOp(op)
+	}
+	if !isLen(x) {
+		return 0
+	}
+	cv, ok := cfgutil.ConstInt(y)
+	if !ok || cv < 0 {
+		return 0
+	}
+	switch op {
+	case token.GTR: // false: len <= c
+		if cv <= 1 {
+			return -1
 		}
-		return c
+	case token.GEQ: // false: len < c
+		if cv <= 2 {
+			return -1
+		}
+	case token.LSS: // true: len < c
+		if cv <= 2 {
+			return 1
+		}
+	case token.LEQ: // true: len <= c
+		if cv <= 1 {
+			return 1
+		}
+	case token.EQL:
+		if cv <= 1 {
+			return 1
+		}
+	case token.NEQ:
+		if cv <= 1 {
+			return -1
+		}
 	}
-	switch bo.Op {
-	case token.GTR:
-		return isLen(bo.X) && cst(bo.Y) <= 1 && cst(bo.Y) >= 0
-	case token.GEQ:
-		return isLen(bo.X) && cst(bo.Y) <= 2 && cst(bo.Y) >= 0
-	case token.LSS:
-		return isLen(bo.Y) && cst(bo.X) <= 1 && cst(bo.X) >= 0
-	case token.LEQ:
-		return isLen(bo.Y) && cst(bo.X) <= 2 && cst(bo.X) >= 0
-	}
-	return false
+	return 0
 }
 
 // poolAccess describes acquire/release functions of the two pools.
@@ -879,6 +904,54 @@ func sinkParam(p *load.Program, fn *ssa.Function) *ssa.Parameter {
 	return nil
 }
 
+// invariantFieldLoad: v is a load of a field of a struct reached from a parameter of fn, and no
+// function of the evaluation phase stores into that field of that struct type: re-reading it in
+// every iteration yields the same slice.
+func invariantFieldLoad(c *engine.Context, fn *ssa.Function, v ssa.Value) bool {
+	ld, ok := v.(*ssa.UnOp)
+	if !ok || ld.Op != token.MUL {
+		return false
+	}
+	fa, ok := ld.X.(*ssa.FieldAddr)
+	if !ok {
+		return false
+	}
+	base := fa.X
+	for {
+		if f2, ok := base.(*ssa.FieldAddr); ok {
+			base = f2.X
+			continue
+		}
+		if l2, ok := base.(*ssa.UnOp); ok && l2.Op == token.MUL {
+			if f2, ok := l2.X.(*ssa.FieldAddr); ok {
+				base = f2.X
+				continue
+			}
+		}
+		break
+	}
+	if _, isP := base.(*ssa.Parameter); !isP {
+		return false
+	}
+	st := fa.X.Type().Underlying().(*types.Pointer).Elem()
+	for _, g := range evalFuncs(c) {
+		for _, b := range g.Blocks {
+			for _, ins := range b.Instrs {
+				sto, ok := ins.(*ssa.Store)
+				if !ok {
+					continue
+				}
+				if f2, ok := sto.Addr.(*ssa.FieldAddr); ok && f2.Field == fa.Field {
+					if pt, ok := f2.X.Type().Underlying().(*types.Pointer); ok && types.Identical(pt.Elem(), st) {
+						return false
+					}
+				}
+			}
+		}
+	}
+	return true
+}
+
 // ruleSeq: O-SEQ (+ the single-exit part of N-FANOUT).
 func ruleSeq(c *engine.Context) *report.Rule {
 	r := report.NewRule("O-SEQ", "member / selector / index loops are complete ascending (or the worklist's descending) loops with no early exit", 7)
@@ -906,7 +979,7 @@ func ruleSeq(c *engine.Context) *report.Rule {
 			case cfgutil.LoopAscending:
 				// bound must be len(X) of a loop-invariant slice, or a value defined outside the loop
 				if x, ok := lenArg(ind.Bound); ok {
-					if ins, isIns := x.(ssa.Instruction); isIns && l.Blocks[ins.Block()] {
+					if ins, isIns := x.(ssa.Instruction); isIns && l.Blocks[ins.Block()] && !invariantFieldLoad(c, fn, x) {
 						complete, why = false, "the bound's slice changes inside the loop"
 					}
 				} else if ins, isIns := ind.Bound.(ssa.Instruction); isIns && l.Blocks[ins.Block()] {
